@@ -23,11 +23,31 @@ Inductive kind :=
 | KConst                  (* ConstFuture: sinking on_computed hook               *)
 | KError.                 (* ErrorFuture: sinking on_computed hook               *)
 
+(* the CLASS of the Exception a raising subscriber raises.  FutureBase._computed (futures.py
+   136-145) has a single `except Exception` clause around safe_trigger: every Exception subclass is
+   printed and swallowed alike, whatever it is - also the classes other parts of asynq give a
+   meaning to (AssertionError: "value of this item wasn't set", NonAsyncContext; StopIteration:
+   generator protocol; FutureIsAlreadyComputed: single assignment; RuntimeError: generator.close();
+   BatchingError / BatchCancelledError).  Every constructor is an Exception subclass; subscribers
+   raising a BaseException (KeyboardInterrupt, SystemExit, GeneratorExit, ...) are outside the
+   statement and outside the input space.                                                       *)
+Inductive xcls :=
+| XUser                         (* harness-defined Exception subclass carrying an id              *)
+| XAssertion                    (* AssertionError, raised by a failing `assert` statement         *)
+| XAssertionSub                 (* user-defined subclass of AssertionError                        *)
+| XValue | XKey | XIndex | XType | XAttribute | XZeroDivision | XOSError
+| XRuntime                      (* RuntimeError                                                   *)
+| XNotImplemented               (* NotImplementedError (what FutureBase._compute raises)          *)
+| XStopIteration                (* StopIteration                                                  *)
+| XAlreadyComputed              (* asynq.futures.FutureIsAlreadyComputed(fut)                     *)
+| XBatching | XBatchCancelled   (* asynq.batching.BatchingError / BatchCancelledError             *)
+| XCustom.                      (* user-defined direct subclass of Exception                      *)
+
 (* what an on_computed subscriber does when it is called (after it recorded the outcome it sees):
    a small script that can re-enter the future's subscription list                             *)
 Inductive cbkind :=
 | CbOk                          (* returns                                                        *)
-| CbRaise                       (* raises an Exception                                            *)
+| CbRaise (c : xcls)            (* raises an Exception of class c                                 *)
 | CbUnsub (target : Z)          (* fut.on_computed.unsubscribe(<subscriber target>): itself, an
                                    earlier or a later one; ValueError if it is not registered     *)
 | CbSub (id : Z) (k : cbkind)   (* fut.on_computed.subscribe(<new subscriber id with behaviour k>) *)
@@ -47,7 +67,7 @@ Fixpoint remove_first (t : Z) (l : list sub) : option (list sub) :=
 Fixpoint run_cb (k : cbkind) (live : list sub) : list sub * bool :=
   match k with
   | CbOk => (live, false)
-  | CbRaise => (live, true)
+  | CbRaise _ => (live, true)
   | CbUnsub t => match remove_first t live with Some l => (l, false) | None => (live, true) end
   | CbSub id k' => (live ++ [(id, k')], false)
   | CbSeq a b => let '(l1, r) := run_cb a live in if r then (l1, true) else run_cb b l1
